@@ -16,9 +16,9 @@ BOUNDS = {
 ASSUMPTIONS = [
     "oracle: brute-force enumeration, written in plain JAX, of all N^T latent sequences: log p(z,y) = log pi(z0) + sum log A[z_{t-1},z_t] + sum log B[z_t,y_t] with pi = softmax(T[init]), A = softmax rows of the transition tensor, B = softmax rows of the observation tensor; posterior = joint - logsumexp over all sequences",
     "finite-domain encoding: integer inputs select constants, so every value is an if-then-else tree with rational leaves (exp/log folded on leaves with float64 math.*); equality up to 1e-4 absolute (the two sides compute the same constants along different float paths)",
-    "sampler: the returned weight must be the exact posterior log-density of the returned sequence and its categorical draws must use pairwise distinct keys; that the backward-sampling logits are the exact conditionals is NOT decided here",
+    "sampler: exact posterior sampling is decided through its sufficient condition: the Gumbel-max categorical draw for z_t has logits equal (after normalisation) to the exact conditional P(z_t | z_{t+1}, y_0..y_t) computed by brute force, the draws use pairwise distinct keys (independent under the PRNG contract), and the returned weight is the exact posterior log-density of the returned sequence",
 ]
-OUTSIDE = ["N > 4, T > 3", "exactness of the backward-sampling conditionals (sampler distribution)", "sigma = 0 configurations (infinite logits)"]
+OUTSIDE = ["N > 4, T > 3", "sigma = 0 configurations (infinite logits)"]
 
 KEY = jax.random.key(0)
 
@@ -95,12 +95,51 @@ def obligations(tier, seed):
                 w, v = DiscreteHMM.random_weighted(key, c, y)
                 le = log_evidence(pi, A, B, y, N)
                 inr = jnp.all((v >= 0) & (v < N))
-                return (w, inr), (log_joint(pi, A, B, [v[t] for t in range(len(y))], y) - le, jnp.array(True))
+                Tn = len(y)
+                # exact backward-sampling conditionals given the LATER sampled state: P(z_t = k | z_{t+1} = v_{t+1}, y_0..y_t)
+                conds = []
+                for t in range(Tn):
+                    rowk = []
+                    for k in range(N):
+                        terms = []
+                        for zz in itertools.product(range(N), repeat=t):
+                            zs = list(zz) + [k]
+                            lj = pi[zs[0]] + B[zs[0], y[0]]
+                            for u in range(1, t + 1):
+                                lj = lj + A[zs[u - 1], zs[u]] + B[zs[u], y[u]]
+                            if t < Tn - 1:
+                                lj = lj + A[k, v[t + 1]]
+                            terms.append(lj)
+                        rowk.append(logsumexp(jnp.stack(terms)))
+                    rowk = jnp.stack(rowk)
+                    conds.append(rowk - logsumexp(rowk))
+                conds = jnp.stack(conds)
+                return (w, inr, jnp.zeros_like(conds)), (log_joint(pi, A, B, [v[t] for t in range(Tn)], y) - le, jnp.array(True), conds)
 
-            def custom(interp, sym_args, outs, out_shape, T=T):
+            def custom(interp, sym_args, outs, out_shape, T=T, N=N):
                 from verif import engine
+                from verif import jaxsmt as J
 
-                diffs, err = engine.build_diffs(Ob("x", None, (), tol=1e-4), interp, out_shape, outs)
+                # outputs: lhs = (w, inr, placeholder[T,N]), rhs = (exact weight, True, exact backward conditionals[T,N])
+                nl = len(outs) // 2
+                lhs, rhs = list(outs[:nl]), list(outs[nl:])
+                cats = interp.categoricals
+                assert len(cats) == T, (len(cats), T)
+                ops = interp.ops
+                rows = J.obj((T, N))
+                for i, (key_, logits, pc_) in enumerate(cats):  # site i samples z_{T-1-i}
+                    m = logits[0]
+                    for l_ in logits[1:]:
+                        m = ops.max(m, l_, "f")
+                    ssum = None
+                    for l_ in logits:
+                        e_ = ops.unary("exp", ops.sub(l_, m, "f"))
+                        ssum = e_ if ssum is None else ops.add(ssum, e_, "f")
+                    lse = ops.add(m, ops.unary("log", ssum), "f")
+                    for k_, l_ in enumerate(logits):
+                        rows[T - 1 - i, k_] = ops.sub(l_, lse, "f")
+                lhs[2] = rows
+                diffs, err = engine.build_diffs(Ob("x", None, (), tol=1e-4), interp, out_shape, lhs + rhs)
                 assert err is None, err
                 ds = [d for d in interp.draws if d.kind in ("gumbel", "uniform", "bits")]
                 assert len(ds) >= T, [d.kind for d in interp.draws]
@@ -109,6 +148,35 @@ def obligations(tier, seed):
                         diffs.append((f"draw keys {i},{j} coincide", ds[i].key == ds[j].key))
                 return diffs
 
-            obs.append(Ob(f"C37/sampler-weight/{cn}/T={T}", samp, (KEY, ex_y), ranges={1: (0, N - 1)}, fold=True, tol=1e-4, custom=custom, timeout_s=120, selfcheck=False,
-                          note="random_weighted: the returned weight is the exact posterior log-density of the returned sequence (in range), for all observation sequences and all draws; one draw per time step with pairwise distinct keys"))
+            def replay(args, samp=samp, cp=cp, N=N):
+                """real code with jit disabled (scan runs as a Python loop): record the logits handed to jax.random.categorical and
+                compare their normalisation with the brute-force backward conditionals given the sequence actually sampled"""
+                import numpy as np
+
+                key, y = args
+                rec, orig = [], jax.random.categorical
+
+                def cat(k, logits, *a, **kw):
+                    rec.append(np.asarray(logits, np.float64))
+                    return orig(k, logits, *a, **kw)
+
+                jax.random.categorical = cat
+                try:
+                    with jax.disable_jit():
+                        (w, inr, _), (wexp, _, conds) = samp(key, y)
+                finally:
+                    jax.random.categorical = orig
+                conds = np.asarray(conds, np.float64)
+                T_ = conds.shape[0]
+                if len(rec) != T_:
+                    return True, f"{len(rec)} categorical draws for {T_} time steps"
+                worst = 0.0
+                for i, lg in enumerate(rec):
+                    lsm = lg - (np.log(np.sum(np.exp(lg - lg.max()))) + lg.max())
+                    worst = max(worst, float(np.max(np.abs(lsm - conds[T_ - 1 - i]))))
+                bad = worst > 1e-3 or abs(float(w) - float(wexp)) > 1e-3 or not bool(inr)
+                return bad, f"y={np.asarray(y).tolist()}: max |log softmax(sampler logits) - exact backward conditional| = {worst:.4f}; weight {float(w):.5f} vs exact {float(wexp):.5f}"
+
+            obs.append(Ob(f"C37/sampler-weight/{cn}/T={T}", samp, (KEY, ex_y), ranges={1: (0, N - 1)}, fold=True, tol=1e-4, custom=custom, replay=replay, timeout_s=120, selfcheck=False,
+                          note="random_weighted: the returned weight is the exact posterior log-density of the returned sequence (in range); the logits of the categorical draw for z_t are the exact backward conditional P(z_t | z_{t+1} = the later sampled state, y_0..y_t) up to normalisation; one draw per time step with pairwise distinct keys - for all observation sequences and all draws"))
     return obs
